@@ -184,7 +184,7 @@ func evalTree(t *Tree, o horder) (Shares, error) {
 		if val >= 1 {
 			want = math.Trunc(val)
 		}
-		if math.Abs(want-out[i][0]) > 1e-9 {
+		if val >= 0 && math.Abs(want-out[i][0]) > 1e-9 { // (a negative share only shows up in the gauge; the laws reject it)
 			return nil, fmt.Errorf("observers disagree for %s: gauge %v session %v", tqid(i), val, out[i][0])
 		}
 		out[i][0] = val
